@@ -207,7 +207,7 @@ func runC03(c *Ctx) {
 				c.bad("R2", "sendPacket used as value in "+fnName(in.Parent()), pos(in), "callers cannot be enumerated")
 			}
 			// Write calls on the connection: only inside sendPacket(w, m)
-			n := 0
+			n, nConn := 0, 0
 			for _, fn := range p.LibFuncs() {
 				if outermost(fn).Package() != p.Sftp {
 					continue
@@ -230,6 +230,13 @@ func runC03(c *Ctx) {
 					if fn == pkgSend {
 						n++
 						c.ok("R2", "Write in sendPacket", pos(in), "frame bytes written by the framing function")
+						return
+					}
+					// conn.sendPacket writing the frame itself (the framing function folded into it): under its mutex
+					if fn == connSend && conny {
+						nConn++
+						c.check(heldAt(in, connSend.Params[0], "conn.Mutex") == "Lock", "R2", "Write in (*conn).sendPacket", pos(in), "frame bytes written under conn's mutex",
+							"a frame is written without holding the connection's write mutex: header and payload of concurrent requests can interleave")
 						return
 					}
 					if conny {
@@ -268,6 +275,9 @@ func runC03(c *Ctx) {
 				})
 			}
 			c.check(n == 2, "R2", "sendPacket writes header then payload", p.Pos(pkgSend.Pos()), "two writes (header, payload) in one locked call", fmt.Sprintf("%d writes in sendPacket", n))
+			if nConn > 0 {
+				c.check(nConn == 2, "R2", "(*conn).sendPacket writes header then payload", p.Pos(connSend.Pos()), "two writes (header, payload) in one locked call", fmt.Sprintf("%d writes in (*conn).sendPacket", nConn))
+			}
 			// conn.Close also under the mutex (a close cannot cut a frame in two)
 			if cl := p.Func("(*conn).Close"); cl != nil {
 				for _, in := range anyCallsWhere(cl, func(cc *ssa.CallCommon) bool { return cc.IsInvoke() && cc.Method.Name() == "Close" }) {
@@ -533,6 +543,11 @@ func runC03(c *Ctx) {
 							return false, "parameter " + l.Param.Name() + " of " + fnName(l.Param.Parent()) + " is not private at every call site"
 						}
 					case leafFieldLoad:
+						// a channel kept in the File is private where the File is held exclusively: every exported
+						// method from which this load can be reached holds f.mu.Lock over it
+						if li, isIn := l.V.(ssa.Instruction); isIn && typeName(l.Base.Type()) == "File" && p.underExclusiveFileLock(li) {
+							continue
+						}
 						return false, "field " + l.Field + " (state shared between calls)"
 					case leafGlobal:
 						return false, "global " + l.V.Name()
@@ -1487,6 +1502,9 @@ func checkWriteFailureLatched(c *Ctx, rule string) {
 		return
 	}
 	n := 0
+	checkWrites := func(w *ssa.Function, writes []ssa.Instruction, key string) {
+		checkLatchedWrites(c, rule, w, writes, key)
+	}
 	for _, in := range callsWhere(connSend, func(cc *ssa.CallCommon) bool { return cc.StaticCallee() == pkgSend }) {
 		n++
 		arg := in.(*ssa.Call).Call.Args[0]
@@ -1535,6 +1553,32 @@ func checkWriteFailureLatched(c *Ctx, rule string) {
 			c.und(rule, key, p.Pos(w.Pos()), fnName(w)+" does not write to a transport")
 			continue
 		}
+		checkWrites(w, writes, key)
+	}
+	if n == 0 {
+		// the framing function folded into (*conn).sendPacket: it writes to the transport itself
+		ws := callsWhere(connSend, func(cc *ssa.CallCommon) bool {
+			if !cc.IsInvoke() || cc.Method.Name() != "Write" {
+				return false
+			}
+			for _, l := range leavesOf(cc.Value) {
+				if l.Kind == leafFieldLoad && l.Field == "WriteCloser" {
+					return true
+				}
+			}
+			return false
+		})
+		if len(ws) > 0 {
+			checkWrites(connSend, ws, "(*conn).sendPacket, which writes the frame itself, remembers a failed write")
+			n = 1
+		}
+	}
+	c.check(n == 1, rule, "(*conn).sendPacket frames through sendPacket(w, m)", p.Pos(connSend.Pos()), "one call", fmt.Sprintf("%d calls of sendPacket(w, m) in (*conn).sendPacket", n))
+}
+
+func checkLatchedWrites(c *Ctx, rule string, w *ssa.Function, writes []ssa.Instruction, key string) {
+	p := c.P
+	{
 		for _, wr := range writes {
 			call := wr.(*ssa.Call)
 			// (a) refused once a failure is remembered: dominated by the nil side of a test of an error field
@@ -1584,7 +1628,6 @@ func checkWriteFailureLatched(c *Ctx, rule string) {
 				fmt.Sprintf("%s does not latch a failed write (tested before writing: %v, failure stored: %v, transport closed: %v): after a Write that fails inside a frame the next request is written behind the torn frame and is never answered", fnName(w), latch != "", stores, closes))
 		}
 	}
-	c.check(n == 1, rule, "(*conn).sendPacket frames through sendPacket(w, m)", p.Pos(connSend.Pos()), "one call", fmt.Sprintf("%d calls of sendPacket(w, m) in (*conn).sendPacket", n))
 }
 
 // checkRoundTripErrorKept (C04.R11): every client call is one or more round trips through (*clientConn).sendPacket, whose
@@ -1660,4 +1703,47 @@ func checkRoundTripErrorKept(c *Ctx, rule string) {
 		})
 	}
 	c.check(n >= 15, rule, "round trips", "?", fmt.Sprintf("%d calls of sendPacket", n), fmt.Sprintf("only %d calls of sendPacket found on the client side", n))
+}
+
+// underExclusiveFileLock: the instruction (in a function of the client's File) runs only while f.mu is held exclusively —
+// in its own function, or in every exported File method from whose helpers it can be reached (then that method holds
+// f.mu.Lock at every call into the File's helpers).
+func (p *Program) underExclusiveFileLock(in ssa.Instruction) bool {
+	host := outermost(in.Parent())
+	fileT := p.NamedType(p.Sftp, "File")
+	if fileT == nil || !isClientFile(host) {
+		return false
+	}
+	any := false
+	for _, m := range exportedFileMethods(p, fileT) {
+		if !fileCone(m)[host] {
+			continue
+		}
+		any = true
+		if m == host {
+			if len(m.Params) == 0 || heldAt(in, m.Params[0], "File.mu") != "Lock" {
+				return false
+			}
+			continue
+		}
+		ok := true
+		eachInstr(m, func(x ssa.Instruction) {
+			cc := callOf(x)
+			if cc == nil {
+				return
+			}
+			if _, isDefer := x.(*ssa.Defer); isDefer {
+				return
+			}
+			if f := cc.StaticCallee(); f != nil && f != m && isClientFile(f) && f.Blocks != nil && fileCone(f)[host] {
+				if heldAt(x, m.Params[0], "File.mu") != "Lock" {
+					ok = false
+				}
+			}
+		})
+		if !ok {
+			return false
+		}
+	}
+	return any
 }
